@@ -435,6 +435,32 @@ impl Report {
             .filter(|k| k.property == self.id && k.status == "open")
             .collect();
 
+        // replay mode (sequential checks): the exploration of the recorded tier was re-run; the
+        // verdict is whether the recorded violation (same key, same scenario) occurred again.
+        // Nothing is written (evidence and replay artefacts describe full runs only).
+        if let Ok(rk) = std::env::var("VERIF_REPLAY_KEY") {
+            let scen = std::env::var("VERIF_REPLAY_SCENARIO").unwrap_or_default();
+            let file = std::env::var("VERIF_REPLAY_FILE").unwrap_or_default();
+            let same_key: Vec<&Violation> = total.violations.iter().filter(|v| v.key == rk).collect();
+            let exact = same_key.iter().find(|v| scen.is_empty() || v.detail.starts_with(&scen));
+            return match (exact, same_key.first()) {
+                (Some(v), _) => {
+                    println!("VIOLATION property={} replay={}", self.id, file);
+                    println!("  replayed: key={}  detail={}", v.key, v.detail);
+                    1
+                }
+                (None, Some(v)) => {
+                    println!("VIOLATION property={} replay={}", self.id, file);
+                    println!("  replayed: the recorded oracle fails again, first on another scenario: key={}  detail={}", v.key, v.detail);
+                    1
+                }
+                (None, None) => {
+                    println!("replay: no violation (key {rk} not reproduced; {} executions)", total.evaluations);
+                    0
+                }
+            };
+        }
+
         // group violations by key
         let mut by_key: BTreeMap<String, Vec<&Violation>> = BTreeMap::new();
         for v in &total.violations {
@@ -474,6 +500,7 @@ impl Report {
                 "key": k,
                 "detail": v.detail,
                 "occurrences_in_run": n,
+                "tier": self.tier.name(),
                 "replay": v.replay,
             });
             if let Err(e) = std::fs::write(&path, serde_json::to_string_pretty(&doc).unwrap()) {
